@@ -177,6 +177,15 @@ def check_surface(case, ctx):
                   'transpose: degrees %r sizes %r' % (G.degrees_of(t), G.sizes_of(t)), what='transpose')
         if not judge(ctx, rng, t, St, 'route/transpose', 'transpose(inplace=%s) is not S\'(u,v) = S(v,u)' % inplace, what='transpose'):
             return
+    # the bound method is the same operation, in place
+    tm = copy.deepcopy(s1)
+    r_ = tm.transpose()
+    St = reference((q, p), (V, U), (nv, nu), P, W, rational, perm=lambda t_: (t_[1], t_[0]))
+    ctx.check(G.degrees_of(tm) == [q, p] and G.sizes_of(tm) == [nv, nu], 'route/transpose-method-structure',
+              'Surface.transpose(): degrees %r sizes %r, expected %r %r' % (G.degrees_of(tm), G.sizes_of(tm), [q, p], [nv, nu]), what='transpose')
+    if G.degrees_of(tm) == [q, p] and G.sizes_of(tm) == [nv, nu]:
+        if not judge(ctx, rng, tm, St, 'route/transpose-method', 'Surface.transpose() is not S\'(u,v) = S(v,u)', what='transpose'):
+            return
     # flip: net reversed in both directions
     fl = operations.flip(copy.deepcopy(s1), inplace=rng.random() < 0.5)
     g2 = fl.ctrlpts2d
